@@ -27,7 +27,9 @@ type C03Case struct {
 	Poison int `json:"poison,omitempty"`
 }
 
-var c03Records = []string{`{"a":1,"b":"s"}`, `{"k":[1,"x"]}`, `["a",{"z":"y"}]`, `{"a":{"b":"c"}}`, `[[],{},"s"]`, `{"n":null,"t":true,"s":""}`, `[1.5e3,"\u0041"]`, `{"":""}`}
+var c03Records = []string{`{"a":1,"b":"s"}`, `{"k":[1,"x"]}`, `["a",{"z":"y"}]`, `{"a":{"b":"c"}}`, `[[],{},"s"]`, `{"n":null,"t":true,"s":""}`, `[1.5e3,"\u0041"]`, `{"":""}`,
+	`[1.5e3,"\u0041",[1,2,3,4,5,6,7,8,9,10,11,12,13,14,15,16,17,18,19,20],{"k":[10,20,30,40,50,60,70,80,90,100,110,120,130,140,150]}]`,
+	`{"rows":[["alpha","beta","gamma","delta","epsilon","zeta","eta","theta"],["alpha","beta","gamma","delta","epsilon","zeta","eta","theta"]]}`}
 
 // docGen renders a JSON document while drawing every degree of freedom the
 // grammar has, and records which features were used.
@@ -326,6 +328,10 @@ func GenC03(t *rapid.T) *C03Case {
 		// stack, a pool) must be released when it leaves it
 		return &C03Case{Text: c03Records[drawIdx(t, len(c03Records), "rec")], Records: []int{9999, 10001, 12000, 20000}[drawIdx(t, 4, "nrec")], RecordsInObject: oneIn(t, 3, "inobj")}
 	}
+	if oneIn(t, 40, "fewrecords") {
+		// the same record text two to five times in one document (equal subtrees at several places)
+		return &C03Case{Text: c03Records[drawIdx(t, len(c03Records), "rec")], Records: drawInt(t, 2, 5, "nrec"), RecordsInObject: oneIn(t, 3, "inobj")}
+	}
 	g := &docGen{t: t, feats: map[string]bool{}, maxW: 5}
 	depth := drawInt(t, 1, 6, "depth")
 	g.ws()
@@ -548,6 +554,17 @@ func CheckC03(c *C03Case, st *Stats) error {
 	}
 	if !EqVBits(snap, want) {
 		return errf("parser result differs from the reference decoder:\n text: %q\n reference: %s\n parser:    %s", clip(text, 400), want.Show(), snap.Show())
+	}
+	// a decoder builds a tree: every array and object of the text is a container of its own (two equal
+	// texts at two places are two containers, so that a later write to one does not show in the other)
+	if want.Depth() < 2000 {
+		seen := map[any]bool{}
+		for _, id := range Idents(got) {
+			if seen[id] {
+				return errf("the parser stored ONE container instance at two places of the result (%s)\n text: %q", clip(showAny(id), 120), clip(text, 400))
+			}
+			seen[id] = true
+		}
 	}
 	return nil
 }
